@@ -18,6 +18,8 @@
 #include <dlfcn.h>
 #include <gsl/gsl_errno.h>
 #include <gsl/gsl_integration.h>
+#include <bxdecay0/mdl_event_op.h>
+#include <memory>
 #include <map>
 #include <set>
 #include <string>
@@ -108,6 +110,7 @@ struct GenCfg {
   bool dbd;
   const char * name;
   int level, mode;
+  double mdl_aperture_deg = -1.0; // >= 0: the generator carries its own momentum-direction-lock operation
 };
 static GenCfg GEN[sch::MAXT];
 
@@ -120,6 +123,11 @@ static void gen_events(int tid, double * out)
   if (GEN[tid].dbd) {
     g.set_decay_dbd_level(GEN[tid].level);
     g.set_decay_dbd_mode((bxdecay0::dbd_mode_type)GEN[tid].mode);
+  }
+  if (GEN[tid].mdl_aperture_deg >= 0) {
+    auto op = std::make_shared<bxdecay0::momentum_direction_lock_event_op>();
+    op->set(bxdecay0::INVALID_PARTICLE, 0, 0.0, 0.0, 1.0, GEN[tid].mdl_aperture_deg * M_PI / 180.0, false);
+    g.add_operation(op);
   }
   Rnd r;
   r.phase = 100 + tid;
@@ -301,6 +309,9 @@ int main(int argc, char ** argv)
   // two gA generators (synthetic datasets through BXDECAY0_DBD_GA_DATA_DIR): table loading from two threads
   else if (HARNESS == "l2e") { NT = 2; GEN[0] = {true, "Mo100", 0, 21}; GEN[1] = {true, "Se82", 0, 22}; NEED_OK = true; }
   else if (HARNESS == "l2f") { NT = 3; GEN[0] = {true, "Mo100", 0, 21}; GEN[1] = {true, "Cd116", 0, 23}; GEN[2] = {true, "Nd150", 0, 24}; NEED_OK = true; }
+  // two generators each carrying its own direction lock with another aperture, preemption at every deviate request
+  else if (HARNESS == "l3f") { NT = 2; DRAW_POINTS = true; GEN[0] = {false, "Co60", 0, 0, 5.0}; GEN[1] = {false, "Co60", 0, 0, 60.0}; }
+  else if (HARNESS == "l3g") { NT = 2; DRAW_POINTS = true; GEN[0] = {true, "Mo100", 0, 1, 20.0}; GEN[1] = {false, "Cs137+Ba137m", 0, 0, 90.0}; }
   else if (HARNESS == "l2d") { NT = 3; GEN[0] = {true, "Cd106", 0, 10}; GEN[1] = {true, "Ru96", 0, 10}; GEN[2] = {false, "Bi207+Pb207m", 0, 0}; }
   else return 2;
   LOG = sch::shared_log();
